@@ -37,6 +37,7 @@ def step (_ : Unit) (line : String) : Unit × String :=
       | none => "bad-op"
     | ["b64decraw", h] => match parseHex h with
       | some s => toHex (b64decodeRaw s) | none => "bad-op"
+    | "form" :: _ => "form-no-model"
     | ["encsize", n] => match n.toNat? with
       | some k => optNat (Gen.encodedSize k) | none => "bad-op"
     | ["decsize", n] => match n.toNat? with
@@ -44,6 +45,9 @@ def step (_ : Unit) (line : String) : Unit × String :=
     -- judges: property predicates on implementation output
     | ["J", "escape", i, o] => match parseHex i, parseHex o with
       | some i, some o => boolStr (Spec.unescape o == i && Spec.noMarkup o && Spec.ampsOk o)
+      | _, _ => "bad-op"
+    | "J" :: "form" :: o :: texts => match parseHex o, texts.mapM parseHex with
+      | some o, some ts => boolStr (ts.all fun t => t.length < 3 || Spec.userTextEscaped o t)
       | _, _ => "bad-op"
     | ["J", "urlencode", i, o] => match parseHex i, parseHex o with
       | some _, some o => boolStr (Spec.urlSafe o)
